@@ -110,6 +110,10 @@ def run(ctx):
         cases.append({'arch': name, 'conn': None, 'kind': 'segment1', 'seg': 7, 'seed': 4, 'phase': 'all', 'msg': None, 'label': None})
         if 'gex' in arch[name]:
             cases.append({'arch': name, 'conn': None, 'kind': 'gex-huge-modulus', 'seg': 0, 'seed': 5, 'phase': 'probe', 'msg': None, 'label': None})
+            # the whole range between the largest modulus ever requested and the largest that fits a packet: just above 8192 bits, 16384 bits,
+            # 65535 bits (exactly 8192 bytes on the wire, no sign byte) - the exponentiation with any of them costs minutes
+            for hb in (8200, 16384, 65535):
+                cases.append({'arch': name, 'conn': None, 'kind': 'gex-huge-modulus', 'bits': hb, 'seg': 0, 'seed': 5, 'phase': 'probe', 'msg': None, 'label': None})
     if q:
         must = [c for c in cases if c['kind'] in ('segment1', 'debug-in-probes', 'prebanner', 'gex-huge-modulus')]
         rest = [c for c in cases if c not in must]
@@ -136,7 +140,7 @@ def run(ctx):
         elif c['kind'] == 'debug-in-probes':
             spec['debug_before_reply'] = 2
         elif c['kind'] == 'gex-huge-modulus':
-            spec['gex'] = lambda mn, pf, mx: 'huge'
+            spec['gex'] = (lambda hb: lambda mn, pf, mx: 'huge:%d' % hb)(c.get('bits', 65536))
         elif c['kind'] == 'prebanner':
             spec['pre'] = [b'Welcome to host', b'', b'   ', b'second line \xff\xfe']
         srv = P.new_ssh2_server(spec, faults=faults, segment=c['seg'], stall_limit=4.0)
